@@ -69,7 +69,16 @@ W_FLAT = {
 
 W_MIX_ATTR = dict(W_MIX, name="W-mix-attr", refattr=True)
 
-WORLDS = {w["name"]: w for w in (W_NEST, W_NEST_4, W_NEST_SMALL, W_MIX, W_FLAT, W_MIX_ATTR)}
+# three levels of nesting: targets s['n']['m']['x'] and readers of the containers two levels above them
+W_DEEP = {
+    "name": "W-deep",
+    "data": {"a": 1, "b": 2, "n": {"k": 5, "m": {"x": 10, "y": 20}}},
+    "leaves": [P("a"), P("b"), P("n", "m", "x"), P("n", "m", "y")],
+    "containers": {P("n"): {"k": 5, "m": {"x": 7, "y": 8}}, P("n", "m"): {"x": 7, "y": 8}},
+    "funs": {}, "knobs": {},
+}
+
+WORLDS = {w["name"]: w for w in (W_NEST, W_NEST_4, W_NEST_SMALL, W_MIX, W_FLAT, W_MIX_ATTR, W_DEEP)}
 
 
 def tmpl(name, args):
@@ -93,6 +102,8 @@ def tmpl(name, args):
         return ("call", "pick", (X,), (("k", ("lit", 3)),))
     if name == "total":
         return ("call", "total", (X,), ())
+    if name == "size":
+        return ("call", "size", (X,), ())
     if name == "abs":
         return ("bi", "abs", X, ())
     if name == "round1":
@@ -150,10 +161,10 @@ def build_universe(world, cfg):
                 for X, Y in itertools.permutations(sources, 2):
                     if X != L and Y != L:
                         ops.append(("def", L, tmpl(name, (X, Y))))
-            elif name == "total":
+            elif name in ("total", "size"):
                 for C in world["containers"]:
                     if not T.overlap(C, L):
-                        ops.append(("def", L, tmpl("total", (C,))))
+                        ops.append(("def", L, tmpl(name, (C,))))
             elif name == "dyn":
                 for C in world["containers"]:
                     if il and not T.overlap(C, L) and isinstance(world["containers"][C], list):
